@@ -102,6 +102,16 @@ def corpus():
     c.append({"name": "opening-position", "rows": [
         row("BBB", "2022-01-05", "Buy", 1, 5), row("AAA", "2022-03-03", "Sell", 10, 11),
         row("BBB", "2022-03-04", "Buy", 1, 5)], "inits": {"AAA": (D(20), D(30000, 2))}})
+    # an opening position sold completely: the closing cost 0 is what is carried forward (not the opening cost)
+    c.append({"name": "opening-position-sold-out", "rows": [
+        row("BBB", "2020-01-06", "Buy", 2, 100), row("AAA", "2020-02-03", "Sell", 10, 60),
+        row("BBB", "2020-03-02", "Buy", 1, 10), row("BBB", "2021-06-03", "Sell", 1, 10),
+        row("CCC", "2023-05-04", "Buy", 1, 7)], "inits": {"AAA": (D(10), D(50000, 2))}})
+    # a split as the only transaction of its day and of its year
+    c.append({"name": "lone-split-days", "rows": [
+        row("AAA", "2020-03-03", "Buy", 10, 15), row("BBB", "2020-06-03", "Buy", 10, 13),
+        row("AAA", "2021-01-11", "Split", split=("2", "1")), row("BBB", "2021-06-03", "Sell", 10, 13),
+        row("AAA", "2022-07-04", "Split", split=("3", "2")), row("AAA", "2023-02-02", "Sell", 5, 9)], "inits": {}})
     # a return of capital and a split between purchases, interleaved securities
     c.append({"name": "roc-and-split", "rows": [
         row("AAA", "2022-03-03", "Buy", 10, 10), row("BBB", "2022-03-03", "Buy", 3, 9),
